@@ -25,7 +25,8 @@ def run(prog, rep, tier):
                   "condition lies on it (no exhaustion latch, so sub-expression chains can be re-fed); R4: each origin created in build_exec/"
                   "build_pred/overload_instance feeds exactly one chain built on the same layout and is paired with that chain; "
                   "R5: state accumulators (containers grown, counters used for numbering) are reset between two inputs; "
-                  "R6: in op_tine::next the shared upstream is pulled only on paths that established this tine is branch 0 (or the merge cursor "
+                  "R7: on every path from the success edge of an upstream pull to a `no stack` return there is another pull (an op never reports "
+                  "exhaustion while its upstream still has input); R6: in op_tine::next the shared upstream is pulled only on paths that established this tine is branch 0 (or the merge cursor "
                   "is reset with the pull), so alternatives are served left to right for every input, not rotated by earlier inputs; "
                   "Y2: the scanner fields that only matter inside %( ... %) (level, in_string) are set to their initial value whenever that start "
                   "condition is entered or provably restored whenever it is left (typestate over the flex actions), so every splice of a format "
@@ -35,6 +36,7 @@ def run(prog, rep, tier):
     apply(rep, "R1", "no exhaustion latch in next()", r_stream.r1(prog), 60)
     apply(rep, "R4", "origin/chain/layout pairing", r_stream.r4(prog), 13)
     apply(rep, "R5", "per-input accumulators reset on new input", r_stream.r5(prog), 3)
+    apply(rep, "R7", "`no stack` is returned only when the upstream pull returned none", r_stream.r7(prog), 60)
     apply(rep, "R6", "a new input is pulled for an ALT-list only by its first branch (left-to-right per input)", r_stream.r6(prog), 1)
     import r_lex
     apply(rep, "Y2", "scanner fields local to a start condition are initialised when it is entered", r_lex.y2(prog), 2)
